@@ -41,7 +41,16 @@ def run_check(prop: str, tier: str) -> int:
     seed = int(os.environ.get("VERIF_SEED", "0"))
     jobs = int(os.environ.get("VF_JOBS", "16"))
     budget = float(os.environ.get("VERIF_BUDGET_S", "300" if tier == "quick" else "1800"))
-    cases = profile.cases(tier, seed)
+    if tier == "quick" and os.environ.get("VF_QUICK_SAMPLE", "fixed") == "fixed":
+        # The quick tier visits one fixed sample of programs, configurations and mutants (the one that was swept
+        # completely on the unchanged tree); VERIF_SEED selects the instances they are solved with and nothing else.
+        # The thorough tier samples programs and mutants by seed as well.  (DESIGN section 5)
+        cases = profile.cases(tier, 0)
+        for c in cases:
+            if "inst_seed" in c:
+                c["inst_seed"] = int(c["inst_seed"]) + seed
+    else:
+        cases = profile.cases(tier, seed)
     findings = [f for f in load_findings() if prop in f.get("properties", [])]
     for f in findings:
         for i, w in enumerate(f.get("witnesses", {}).get(prop, [])):
